@@ -14,7 +14,7 @@ PROPERTY = "C14"
 CFG = dict(round="uf", nl_uf=True, div="assume", sqrt="assume")
 HEAVY = {"aroon", "ADX", "RSI", "Supertrend", "OBV", "KC", "STOCH", "TSI", "MACD", "HMA", "Counter"}
 COMPOSITE = {"HMA", "ATR", "STDEV", "BBANDS", "KC", "Supertrend", "STDEVTHRES", "RSI", "MACD", "STOCH", "TSI", "ADX", "VWAP"}
-OPS = ["append", "calc", "calcX", "purge", "purgeX", "recalc", "recalcX", "cidx+", "cidx-1", "cidx-2", "remove", "add", "addT"]
+OPS = ["append", "calc", "calcX", "purge", "purgeX", "recalc", "recalcX", "cidx+", "cidx-1", "cidx-2", "remove", "add", "addT", "removeT"]
 
 
 def obligations(tier):
@@ -76,7 +76,7 @@ def run(ctx, P):
         src = clone(cs)
         hx = Hexital("hx", src[: n - pending0], [build_any(spec), build("WMA", dict(period=2, name_suffix="by"))])
         registered = True
-        has_tf = False
+        has_tf = had_tf = False
         clean_x = clean_all = True          # X's readings complete / every registered indicator's readings complete
         if P.get("fresh"):
             clean_x = clean_all = False
@@ -146,11 +146,17 @@ def run(ctx, P):
                 registered = False
                 clean_x = False
                 continue
+            if op == "removeT":
+                # the member with its own timeframe leaves again (the only member of that timeframe)
+                if has_tf:
+                    hx.remove_indicator("SMA_2_T2_tf")
+                    has_tf = False
+                continue
             if op == "addT":
                 # a further member that brings its own timeframe joins the populated Hexital: a new candle list is seeded
                 if not has_tf:
                     hx.add_indicator(build("SMA", dict(period=2, name_suffix="tf"), timeframe="T2"))
-                    has_tf = True
+                    has_tf = had_tf = True
                     clean_all = False
                 continue
             if op == "add":
@@ -170,6 +176,8 @@ def run(ctx, P):
         for nm in batch.indicators:
             ctx.equal("converges-to-batch" + lab, hx.indicator(nm).as_list(), batch.indicator(nm).as_list())
         got, exp = state(hx), state(batch)
+        if registered and had_tf and not has_tf:
+            exp = dict(exp, T2=[dict(ind={}, sub={}) for _ in got.get("T2", [])])      # the emptied timeframe keeps its (reading-free) candles
         if registered:
             ctx.equal("final-state==batch-state" + lab, got, exp)
         else:
@@ -178,10 +186,25 @@ def run(ctx, P):
                 for i, a in enumerate(got[tf]):
                     left = (set(a["ind"]) | set(a["sub"])) & xkeys
                     ctx.require("remove-leaves-nothing" + lab, not left, f"candle {i} keeps {sorted(left)}")
+        # whatever was removed comes back after one more candle has arrived: again the batch state for the current candles
+        if (not registered) or (had_tf and not has_tf):
+            if pos < n:
+                hx.append(src[pos])
+                pos += 1
+            if not registered:
+                hx.add_indicator(build_any(spec))
+            if had_tf and not has_tf:
+                hx.add_indicator(build("SMA", dict(period=2, name_suffix="tf"), timeframe="T2"))
+            hx.calculate()
+            full = Hexital("b2", clone(cs)[:pos], [build_any(spec), build("WMA", dict(period=2, name_suffix="by"))] + ([build("SMA", dict(period=2, name_suffix="tf"), timeframe="T2")] if had_tf else []))
+            full.calculate()
+            for nm in full.indicators:
+                ctx.equal("re-added members converge to batch" + lab, hx.indicator(nm).as_list(), full.indicator(nm).as_list())
+            ctx.equal("state after re-adding == batch-state" + lab, state(hx), state(full))
 
 
 META = dict(
-    bounds=dict(quick="all operation sequences of length <= 2 over {append, calculate, calculate(X), purge, purge(X), recalculate, recalculate(X), calculate_index(X, last / -1 / -2), remove_indicator(X), add_indicator(X), add_indicator(a member with its own timeframe T2)} for the non-branching indicators (value-branching ones: 5 first ops x 5 second ops), on a Hexital with X and a bystander WMA(2) named WMA_2_by; n = warm-up+3..4 candles, 2 of them pending for append; the composite indicators additionally from the initial state 'registered, never calculated' with programs of length <= 3",
+    bounds=dict(quick="all operation sequences of length <= 2 over {append, calculate, calculate(X), purge, purge(X), recalculate, recalculate(X), calculate_index(X, last / -1 / -2), remove_indicator(X), add_indicator(X), add_indicator / remove_indicator(a member with its own timeframe T2)}; after each program, whatever was removed is added back after one more append and the state must again be the batch state for the non-branching indicators (value-branching ones: 5 first ops x 5 second ops), on a Hexital with X and a bystander WMA(2) named WMA_2_by; n = warm-up+3..4 candles, 2 of them pending for append; the composite indicators additionally from the initial state 'registered, never calculated' with programs of length <= 3",
                 thorough="length <= 3 (third op from 8), n+1, periods 2 and 3"),
     stubs=["exact real arithmetic, uninterpreted rounding and products"],
     assumptions=["calculate_index is only issued when X's readings are complete (the property's precondition)"],
